@@ -10,11 +10,11 @@ const Enabled = true
 // The function variables below are installed by a simulator before any scrapligo object is used
 // and are never changed while library goroutines run; nil means no-op.
 var (
-	EnterFn   func(role string)                  //nolint:gochecknoglobals
-	YieldFn   func(point string)                 //nolint:gochecknoglobals
-	PollFn    func(point string)                 //nolint:gochecknoglobals
-	AcquireFn func(id interface{}, name string)  //nolint:gochecknoglobals
-	ReleaseFn func(id interface{}, name string)  //nolint:gochecknoglobals
+	EnterFn   func(role string)                   //nolint:gochecknoglobals
+	YieldFn   func(point string)                  //nolint:gochecknoglobals
+	PollFn    func(point string)                  //nolint:gochecknoglobals
+	AcquireFn func(id interface{}, name string)   //nolint:gochecknoglobals
+	ReleaseFn func(id interface{}, name string)   //nolint:gochecknoglobals
 	DialFn    func(network, addr string) net.Conn //nolint:gochecknoglobals
 )
 
